@@ -130,7 +130,7 @@ def tcpc_dist(rs):
         d["outcomes"][o] = d["outcomes"].get(o, 0) + 1
     return d
 
-TCPC_STREAM = {"name": "tcpc", "quick": 60, "thorough": 2000, "sep": ";", "batch": 500,
+TCPC_STREAM = {"name": "tcpc", "realtime": True, "quick": 60, "thorough": 2000, "sep": ";", "batch": 500,
                "nontrivial": lambda r: len(r["input"].split(";")) > 2, "distribution": tcpc_dist}
 EB_STREAMS = [{"name": "eb", "quick": 6000, "thorough": 200000, "head": 5, "unit": 2, "exhaustive": "eb-exhaustive",
                "nontrivial": eb_nontrivial, "distribution": eb_dist}, TCPC_STREAM]
@@ -447,7 +447,7 @@ def pool_amplify(r):
     out.append(" ; ".join([head] + ops + ["mark"] + rnd + rnd + ["p " + q for q in reqs] + ["mark", "mark"]))
     return out
 
-POOLT_STREAM = {"name": "poolt", "quick": 40, "thorough": 1500, "sep": ";", "batch": 4000, "keep": ["mark"],
+POOLT_STREAM = {"name": "poolt", "realtime": True, "quick": 40, "thorough": 1500, "sep": ";", "batch": 4000, "keep": ["mark"],
                 "exhaustive": "poolt-exhaustive", "exhaustive_always": True,
                 "nontrivial": pool_nontrivial, "distribution": pool_dist}
 POOL_RULE = ("random schedules (6-34 ops + drain/probe phase) of issue / poll / cancel / dial ok|ok+ALPN-h2|fail-connect|fail-handshake / "
@@ -579,7 +579,7 @@ def srvk_dist(rs):
         d["observations"][r["obs"]] = d["observations"].get(r["obs"], 0) + 1
     return d
 
-SRVK_STREAM = {"name": "srvk", "quick": 60, "thorough": 3000, "sep": ";", "batch": 4000, "exhaustive": "srvk-exhaustive",
+SRVK_STREAM = {"name": "srvk", "realtime": True, "quick": 60, "thorough": 3000, "sep": ";", "batch": 4000, "exhaustive": "srvk-exhaustive",
                "exhaustive_always": True, "nontrivial": lambda r: len(r["input"].split()) > 5, "distribution": srvk_dist}
 SRVK_RULE = (" | srvk: the real Server (HTTP/1 or auto) on kernel and TLS acceptors - TcpListener, UnixListener, TCP+TLS, duplex+TLS "
              "(real rustls, harness/certs), and an acceptor of the caller's own (public Accept trait: an in-memory listen queue whose "
